@@ -34,7 +34,7 @@ class C10(P.Property):
     assumptions = ["connections are consecutive, never overlapping (overlap is C12)",
                    "tokens under the other key are valid messages and must produce an empty result"]
     probe_names = ["forced_reconnect", "reconnect_inside_cleanup", "abort_reconnect", "second_config_refused", "second_upload_refused",
-                   "search_before_ready_refused", "foreign_sid_ignored", "unknown_type", "search_other_key", "search_absent_keyword", "decoy_service", "pipelined_pair", "ack_lost_behind_refused_pipelined_request"]
+                   "search_before_ready_refused", "foreign_sid_ignored", "unknown_type", "search_other_key", "search_absent_keyword", "decoy_service", "pipelined_pair", "ack_lost_behind_refused_pipelined_request", "malformed_content_refused"]
     exhaustive = False
 
     def setup(self):
@@ -63,7 +63,7 @@ class C10(P.Property):
     def gen(self, seed, tier):
         rng = P.stream(seed, "workload")
         steps = []
-        kinds = ["config", "config", "upload", "upload", "search", "search", "search", "reconnect", "foreign", "unknown"]
+        kinds = ["config", "config", "upload", "upload", "search", "search", "search", "reconnect", "foreign", "unknown", "config_bad", "upload_bad"]
         enabled = [k for k in kinds if rng.random() < 0.8] or ["config", "upload", "search"]
         for _ in range(rng.randint(3, 14)):
             k = rng.choice(enabled)
@@ -80,6 +80,8 @@ class C10(P.Property):
                 steps.append(st_)
             elif k == "reconnect":
                 steps.append({"do": k, "gap": rng.choice([0, 0.5, 1.5, 0, 0.5, 1.5, 30]), "abort": rng.random() < 0.3})
+            elif k in ("config_bad", "upload_bad"):
+                steps.append({"do": k, "v": rng.randint(0, 1)})
             elif k == "foreign":
                 steps.append({"do": k, "m": rng.choice(["config", "upload", "search"])})
             else:
@@ -87,7 +89,8 @@ class C10(P.Property):
         knobs = dict(scheme=rng.choice(C10_SCHEMES),
                      net=rng.choice([dict(lo=0.001, hi=0.05), dict(lo=0.001, hi=0.05, seg=3), dict(lo=0.0005, hi=0.004), dict(lo=0.01, hi=0.3, tail=0.1, seg=2)]),
                      skew=rng.choice([1.0, 1.0, 0.5, 2.0]), bufsize=rng.choice([8192, 8192, 16]), forced_gap=rng.choice([0, 0.5, 1.5]),
-                     decoy=rng.random() < 0.5)
+                     decoy=rng.random() < 0.5, gc_every=rng.choice([0, 0, 1, 3]),
+                     digest=rng.choice(["unique", "unique", "same", "none"]))
         return {"property": "C10", "seed": seed, "knobs": knobs, "steps": steps}
 
     def enumerate(self, tier):
@@ -198,6 +201,7 @@ class C10(P.Property):
             return
         for si, step in enumerate(plan["steps"]):
             do = step["do"]
+            run.maybe_gc(si)
             if do == "reconnect":
                 out["reconnects"] += 1
                 if step.get("abort"):
@@ -247,14 +251,29 @@ class C10(P.Property):
                 accepted_expected = None
             else:
                 async def send(m, tag):
-                    if m["do"] == "config":
+                    if m["do"] == "config_bad":
+                        # a configuration upload the server cannot store (not JSON-serialisable): a request that has to be refused
+                        bad = dict(C[0], extra={1, 2}) if m.get("v", 0) == 0 else dict(C[1], blob=b"\x00\xff")
+                        await a.send("config", pickle.dumps(bad))
+                    elif m["do"] == "upload_bad":
+                        # an index upload without usable content (field absent / not bytes)
+                        if m.get("v", 0) == 0:
+                            await a.send("upload_edb", None)
+                        else:
+                            await a.send("upload_edb", "not-bytes")
+                    elif m["do"] == "config":
                         await a.send("config", pickle.dumps(C[m["c"]]))
                     elif m["do"] == "upload":
                         await a.send("upload_edb", E[m["e"]])
                     else:
-                        await a.send("token", T[(m["key"], m["w"])], token_digest=b"d%d%s" % (si, tag))
+                        # the digest is a client-chosen echo field: unique per request, the same for every request, or absent
+                        mode = knobs.get("digest", "unique")
+                        kw = {} if mode == "none" else {"token_digest": b"same" if mode == "same" else b"d%d%s" % (si, tag)}
+                        await a.send("token", T[(m["key"], m["w"])], **kw)
 
                 def accepts(m):
+                    if m["do"] in ("config_bad", "upload_bad"):
+                        return False
                     return (st == 0) if m["do"] == "config" else (st == 1) if m["do"] == "upload" else (st == 2)
                 msgs = [step]
                 burst = step.get("burst")
@@ -331,6 +350,8 @@ class C10(P.Property):
                                                                             f"{len(got)} ids, expected {len(want)} (ids differ)", site="search"))
                                 return
                     else:
+                        if mdo in ("config_bad", "upload_bad"):
+                            probes["malformed_content_refused"] = 1
                         if mdo == "config":
                             probes["second_config_refused"] = 1
                         elif mdo == "upload" and st == 2:
@@ -359,11 +380,13 @@ class C10(P.Property):
     def _accepts_after(m1, m2, st):
         """does the reference model accept m2 right after accepting m1 in state st?"""
         st2 = {"config": 1, "upload": 2}.get(m1["do"], st)
+        if m2["do"] in ("config_bad", "upload_bad"):
+            return False
         return (st2 == 0) if m2["do"] == "config" else (st2 == 1) if m2["do"] == "upload" else (st2 == 2)
 
     def simplifications(self, plan):
         k = plan["knobs"]
-        for key, val in (("skew", 1.0), ("bufsize", 8192), ("scheme", "CJJ14.PiBas"), ("net", dict(lo=0.01, hi=0.01)), ("forced_gap", 0), ("decoy", False)):
+        for key, val in (("skew", 1.0), ("bufsize", 8192), ("scheme", "CJJ14.PiBas"), ("net", dict(lo=0.01, hi=0.01)), ("forced_gap", 0), ("decoy", False), ("gc_every", 0), ("digest", "unique")):
             if k.get(key) != val:
                 yield dict(plan, knobs=dict(k, **{key: val}))
         steps = plan["steps"]
